@@ -14,6 +14,24 @@ CLAIMED = {
     "C02": ("truth table over the extracted dedup guard + value-set entry-guard analysis on all handler paths + who-may-call",
             "Decides: durable duplicate check dominates dispatch (16+ row truth table), every effectful commit of each handler is reached only with the addressed entity read in the step's start status, execute only under RUNNING / not canceled. Does not decide outcome equality under permutations.",
             "Trusted: status sets read from models/status.py, guard table in sa/rules/c02.py.", "5/C02"),
+    "C04": ("ordering analysis on all paths of _start_if_ready (claim CAS before planning) + SQL shape of the phase CAS + join-flag ordering",
+            "Decides: every planning side effect is dominated by a committed store_stage(expected_phase=status read); the CAS loser does nothing; the phase UPDATEs are CAS on (id, version, status); first-of/quorum joins are marked fired between claim and plan and never READY again. Does not decide the interleavings themselves.",
+            "Trusted: SQLite writer serialisation (the conditional UPDATE is the linearisation point).", "5/C04"),
+    "C06": ("typestate of .status writes on all handler paths (validated / legal from the path condition / listed re-arm / not durable) + whole-program scan + SQL who-may-write",
+            "Decides: VALID_TRANSITIONS table facts; every .status assignment reached on a handler path is validated, legal for every (from,to) the path condition allows, a listed re-arm/force-mark, or not durable; every other assignment site is listed; status columns have a closed writer set.",
+            "Trusted: VALID_TRANSITIONS as written in models/status.py; jump force-marks are listed, not proved.", "5/C06"),
+    "C07": ("SQL shape rules for every UPDATE of the stage/task tables + freshness of objects stored inside retried closures (path analysis) + exception-discipline scan",
+            "Decides: every UPDATE is a version CAS whose failure raises ConcurrencyError before the in-memory bump; closed DML writer set; objects stored in a retry_on_concurrency_error closure are read inside it; no except clause swallows ConcurrencyError outside a reviewed list; rollback restores versions. Does not decide interleavings.",
+            "Trusted: SQLite writer serialisation; reviewed swallow list in sa/rules/c07.py.", "5/C07"),
+    "C08": ("SQL shape rules on every queue/DLQ statement + statement ordering in poll/move/replay + processor call-order scan + sibling agreement of the attempt limit",
+            "Decides: claim is a CAS on (id, version) and the loser returns before touching the message; DLQ move/replay are DELETE..RETURNING + INSERT of the returned row in one commit; closed deleter set; ack only after the handler returned; reschedule keeps attempts; sweep reachable; the attempt limit is one quantity; unhandled types raise. Does not decide timing / interleavings.",
+            "Trusted: SQLite writer serialisation, datetime() granularity.", "5/C08"),
+    "C09": ("truth table over the extracted dedup guard + structural invariants of the bloom filter + commit-sequence rule for the processed-mark + SQL shapes",
+            "Decides: the durable record is consulted unless the filter is trusted, authoritative and negative; one deterministic position function, all positions set, bits only OR-ed; authority only after a complete hydrate, revoked by reset; mark in the last commit, INSERT OR IGNORE without commit, same table/key as the lookup.",
+            "Trusted: hashlib determinism.", "5/C09"),
+    "C11": ("ordering analysis on all paths of _start_if_ready (claims inside the claim transaction) + SQL/DDL shape rules for stage_claims",
+            "Decides: mutex/choice claims are taken inside the claim transaction before the claiming store; a refused claim rolls back and never plans (mutex re-queues, choice cancels itself atomically); acquire_claim statement shapes and the unique key in schema and migration; claims only swept for completed executions; the winner cancels siblings. Does not decide interleavings or fairness.",
+            "Trusted: SQLite unique-constraint semantics.", "5/C11"),
 }
 
 checks = []
